@@ -3,13 +3,13 @@
 model-checking / simulation / replay front-end from one table, so that they cannot drift apart."""
 import os
 HERE = os.path.dirname(os.path.abspath(__file__))
-ALL = "C01 C02 C03 C04 C05 C06 C08 C11 C12 C13 C14 C15 StoreAgrees"
+ALL = "C16 C01 C02 C03 C04 C05 C06 C08 C11 C12 C13 C14 C15 StoreAgrees"
 BASE = dict(
     NVB="2", InitLog="<- HistA", MaxSeq="3", Keys='{"user"}', Kinds='{"mut", "sys", "adv"}', OldEvents="FALSE",
     BadEvents="FALSE", FoUuid="<- Fo10", Savers='{"p"}', MaxSaves="2", MaxCrash="1", MaxAcks="2", MaxGen="2",
     MaxNotify="0", MaxEnds="0", MaxFail="0", AutoReset='"earliest"', Finite="FALSE", AutoCkpt="FALSE",
     Infos="<- NoInfos", Info0="<- Info11", EndCauses="{}", Hold="FALSE", AllowClose="FALSE", Rollbacks="FALSE",
-    FailSaves="TRUE", Focus="TRUE", Record="FALSE", Marking="FALSE", WindAt="0", Gaps="{}", Bugs="{}")
+    FailSaves="TRUE", Focus="TRUE", Record="FALSE", Scrapes="FALSE", Marking="FALSE", WindAt="0", Gaps="{}", Bugs="{}")
 DATA = dict(BASE)
 GEN = dict(BASE, NVB="1", InitLog="<- EmptyLog", Kinds='{"mut", "del", "exp", "sys", "adv"}', Keys='{"user", "conn", "txn"}',
            OldEvents="TRUE", BadEvents="TRUE", MaxSaves="1", Rollbacks="TRUE", FailSaves="FALSE")
@@ -73,6 +73,11 @@ CFGS = {
     "WitReplayLife1": rep(LIFE, NVB="1", MaxSeq="3", MaxSaves="5", MaxAcks="5", MaxNotify="5", MaxEnds="6", Hold="TRUE"),
     "WitReplayLife": rep(LIFE, MaxSeq="3", MaxSaves="5", MaxAcks="5", MaxNotify="5", MaxEnds="6", Hold="TRUE"),
     # ---- start-up faults ------------------------------------------------------------------------------------
+    "MCMetricQ": mc(LIFE, Scrapes="TRUE", MaxNotify="1", MaxEnds="1", MaxSaves="0", MaxAcks="1", MaxSeq="1", Hold="TRUE", AllowClose="FALSE", AutoCkpt="FALSE"),
+    "MCMetric": mc(LIFE, Scrapes="TRUE", MaxNotify="1", MaxEnds="1", MaxSaves="1", MaxAcks="2", MaxSeq="2", Hold="TRUE",
+                   Kinds='{"mut", "del", "exp", "sys"}', Keys='{"user", "conn"}'),
+    "SimMetric": simc(LIFE, 55, Scrapes="TRUE", MaxNotify="2", MaxEnds="2", MaxSaves="2", MaxAcks="3", MaxSeq="3", Hold="TRUE",
+                      Kinds='{"mut", "del", "exp", "sys", "adv"}', Keys='{"user", "conn"}', OldEvents="TRUE"),
     "MCFaultQ": mc(FAULT, MaxFail="1"),
     "MCFault": mc(FAULT),
     "MCModeQ": mc(FAULT, MaxFail="0", Finite="TRUE", AutoReset='"latest"', MaxEnds="2", EndCauses='{"ok"}', AllowClose="TRUE"),
